@@ -329,6 +329,9 @@ def check_binop(case):
         if same_family:
             return o.violation("raises-within-family:%s" % op, "%s raised ValueError" % what)
         o.label("cross-family:ValueError")
+        # a refused operation leaves both lengths what they were: each still resolves to its own value
+        if (a.amount, a.units) != sa or (b.amount, b.units) != sb:
+            return o.violation("operand-modified-by-refused:%s" % op, "%s raised ValueError and left the operands as %r and %r" % (what, a, b))
         return o.ok(nontrivial=False)
     except ZeroDivisionError:
         if op == "/" and xb == 0:
